@@ -115,6 +115,60 @@ func init() {
 		}
 		c.Case("cond_cell", fields...)
 	})
+	// cond_attr: the ATTRIBUTE name is chosen by a branch:  <E {{if .C}}A1{{else}}A2{{end}}[{{if .D}}{{end}}]="{{.X}}">
+	//   (variant "2": followed by a second, empty conditional; variant "n": nested conditional on the else side)
+	//   -> for C = true and C = false: analysis outcome and per-probe results (as policy_cell)
+	reg("cond_attr", 4, func(c *caseWriter, in []string) {
+		e, a1, a2, variant := in[0], in[1], in[2], in[3]
+		names := "{{if .C}}" + a1 + "{{else}}" + a2 + "{{end}}"
+		switch variant {
+		case "2":
+			names += "{{if .D}}{{end}}"
+		case "n":
+			names = "{{if .C}}" + a1 + "{{else}}{{if .D}}" + a1 + "{{else}}" + a2 + "{{end}}{{end}}"
+		case "m":
+			names = "{{if .C}}{{if .D}}" + a2 + "{{else}}" + a1 + "{{end}}{{else}}" + a2 + "{{end}}"
+		}
+		text := "<" + e + " " + names + `="{{.X}}">`
+		fields := []string{hx(e), hx(a1), hx(a2), hx(variant)}
+		for _, cond := range []bool{true, false} {
+			outcome := ""
+			var results []string
+			attr := a2
+			if cond {
+				attr = a1
+			}
+			opre := "<" + e + " " + attr + `="`
+			for _, p := range policyProbes {
+				r := runTemplate(text, "", map[string]interface{}{"C": cond, "D": false, "X": valueFromWire(p)}, false)
+				switch {
+				case r.outcome == "ok":
+					if outcome == "" {
+						outcome = "ok"
+					}
+					mid := r.out
+					if strings.HasPrefix(mid, opre) && strings.HasSuffix(mid, `">`) && len(mid) >= len(opre)+2 {
+						results = append(results, "A:"+hx(mid[len(opre):len(mid)-2]))
+					} else {
+						results = append(results, "X:"+hx(mid))
+					}
+				case r.outcome == "execerr":
+					if outcome == "" {
+						outcome = "ok"
+					}
+					results = append(results, "R")
+				case strings.HasPrefix(r.outcome, "escape:"):
+					outcome = "deny:" + strings.TrimPrefix(r.outcome, "escape:")
+					results = append(results, "D")
+				default:
+					outcome = r.outcome
+					results = append(results, "D")
+				}
+			}
+			fields = append(fields, outcome, strings.Join(results, ","))
+		}
+		c.Case("cond_attr", fields...)
+	})
 	// partial_cell: <element> <attribute> <static prefix>:  <E A="PRE{{.}}">  with each enumerated value:
 	// was the template accepted by the analysis?  The driver refuses acceptance when the REVIEWED policy
 	// gives (E, A) an enumerated class ("static partial values are refused in enumerated contexts")
@@ -150,6 +204,7 @@ var policyProbes = []string{
 	"str:" + hx("zq"), "str:" + hx("javascript:alert(1)"), "safe:html:" + hx("<i>h</i>"), "safe:script:" + hx("s()"),
 	"safe:style:" + hx("c:d;"), "safe:stylesheet:" + hx("a{}"), "safe:url:" + hx("http://u/"), "safe:tru:" + hx("/t.js"),
 	"safe:identifier:" + hx("idz"), "str:" + hx("_blank"), "str:" + hx("auto"), "str:" + hx("async"), "str:" + hx("lazy"),
+	"str:" + hx("_BLANK"), "str:" + hx("Auto"), "str:" + hx("ASYNC"), "str:" + hx("Lazy"), "str:" + hx("RTL"), "str:" + hx("_blan\u212a"), "str:" + hx("_ſelf"), "str:" + hx(" ltr"), "str:" + hx("eager\n"),
 }
 
 func runC04(c *caseWriter) (string, bool, map[string]int) {
@@ -234,6 +289,20 @@ func runC04(c *caseWriter) (string, bool, map[string]int) {
 			for _, r := range []string{" next ", " stylesheet ", " alternate stylesheet ", " icon x ", " modulepreload ", " x-next ", ""} {
 				emit(c, "sc_attr04", e, a, r)
 				emit(c, "sc_attr", e, a, r)
+			}
+		}
+	}
+	// attribute names chosen by a branch (both orders), alone, followed by an empty conditional, nested
+	condAttrs := []string{"title", "onclick", "data-x", "href", "src", "srcdoc", "style", "target", "alt", "id", "dir", "aria-label", "formaction", "srcset", "loading", "async", "data-onclick", "class"}
+	for _, e := range []string{"a", "div", "iframe", "img", "script", "button", "link"} {
+		for i, a1 := range condAttrs {
+			for j, a2 := range condAttrs {
+				if i == j || (quick && (i+2*j+len(e))%4 != 0 && !(a1 == "data-x" || a2 == "data-x" || a1 == "title" || a2 == "title")) {
+					continue
+				}
+				for _, v := range []string{"1", "2", "n", "m"} {
+					emit(c, "cond_attr", e, a1, a2, v)
+				}
 			}
 		}
 	}
